@@ -103,13 +103,19 @@ def main():
                  'failing input are recorded.  `Cxx-mN`: written by independent sub-agents given only the property text (two rounds);\n'
                  '`revert-<commit>`: the reverse patch of a `fix:` commit.  On the unchanged tree every check exits 0.\n\n'
                  f'**{caught} of {len(by_change)} changes are reported with a concrete failing input by at least one check.**  The rows marked\n'
-                 '"missed" are changes whose author filed them under a property whose statement they do not contradict without a further ingredient\n'
-                 '(a seek for C01/C10, a process kill for C03/C13): the check of the property they do contradict (next row) reports them.\n\n'
+                 '"missed" are mostly changes whose author filed them under a property whose statement they do not contradict without a further\n'
+                 'ingredient (a seek for C01/C10, a process kill for C03/C13/C15, a fault for C03/C11): the check of the property they do contradict\n'
+                 '(next row) reports them.  The few that no check reports are listed with the reason at the end.\n\n'
                  '| change | property | tier/seed | outcome | first failing input reported |\n|---|---|---|---|---|\n')
         for key in sorted(results):
             r = results[key]
             fh.write(f"| {r['change']} | {r['property']} | {r.get('tier', '')}/{r.get('seed', '')} | {r['outcome']} | "
                      f"{r.get('first_failing_input', '').replace('|', '/')[:260]} |\n")
+        un_path = os.path.join(SEEDED, 'unreported.json')
+        if os.path.exists(un_path):
+            fh.write('\n## Changes that no check reports, and why\n\n')
+            for ch, why in sorted(json.load(open(un_path)).items()):
+                fh.write(f'* `{ch}`: {why}.\n')
     return 0
 
 
